@@ -2,6 +2,7 @@ import Driver.Proto
 import SpsdkVerif.Model.ConfigArea
 import SpsdkVerif.Generated.RegLayouts
 import SpsdkVerif.Generated.RegDetails
+import SpsdkVerif.Generated.PfrRules
 open SpsdkVerif Driver
 open SpsdkVerif.CfgArea SpsdkVerif.Misc
 
@@ -164,6 +165,13 @@ def stepLine (st : St) : List String → St × String
       | some n => (st, "ok:" ++ namedCfgStr n)
       | none => (st, "unnameable")
   | ["rtcfg", vals] => (st, cfgRoundtrip st.l st.d (csvNat vals))
+  | ["evalrule", rid, v] => match parseNat rid, parseNat v with
+    | some rid, some v =>
+      let e := if rid == 0 then Generated.PfrRules.rule0 else if rid == 1 then Generated.PfrRules.rule1 else none
+      (match e with
+       | some e => (st, toString (BitExpr.eval e v))
+       | none => (st, "untranslated"))
+    | _, _ => (st, "bad-op")
   | ["dwhere"] => (st, firstBadField st.l st.d)
   | ["dcheck"] =>
     let bad := (List.range Generated.RegLayouts.layouts.length).filterMap (fun i =>
